@@ -271,10 +271,19 @@ def rule_case(run):
                 else: run.violated(key, 'the per-column atmosphere block is not geo.block_name(geo.layerlist[0].name, col.name)', where=fi.where(lp))
                 if s == 1:
                     # source block of the mapped column
-                    src_ok = any(isinstance(x, ast.Assign) and norm(x.targets[0]) == 'mappedcol' and norm(x.value) == 'colmapping[col.name]' for x in lp.body) and \
-                        any(isinstance(x, ast.Assign) and norm(x.targets[0]) == 'oldatmosblockname' and
-                            compare(x.value, 'sourcegeo.block_name(sourcegeo.layerlist[0].name, mappedcol)') == 'equal' for x in lp.body)
-                    run.check(src_ok, key + ' (source block of the mapped column)', 'source atmosphere block is not that of the mapped column', where=fi.where(lp))
+                    # what is copied into the column's atmosphere block, with the loop's locals substituted by their definitions
+                    k3 = key + ' (source block of the mapped column)'
+                    stored = [x for x in ast.walk(lp) if isinstance(x, ast.Assign) and isinstance(x.targets[0], ast.Subscript) and norm(x.targets[0].value) == 'self']
+                    if len(stored) != 1: run.unknown(k3, '%d stores into self[...] in the loop' % len(stored), where=fi.where(lp))
+                    else:
+                        got = roles.inline_locals(stored[0].value, lp.body)
+                        cv = lp.target.id if isinstance(lp.target, ast.Name) else 'col'
+                        want = 'copy(sourceinc[sourcegeo.block_name(sourcegeo.layerlist[0].name, colmapping[%s.name])])' % cv
+                        r = compare(got, want, [want.replace('copy(', 'deepcopy(', 1)])
+                        if r == 'equal': run.ok(k3, where=fi.where(stored[0]))
+                        elif r == 'different':
+                            run.violated(k3, 'source atmosphere block is not that of the mapped column: the stored state is `%s`' % norm(got), where=fi.where(stored[0]))
+                        else: run.unknown(k3, 'stored state `%s`' % norm(got), where=fi.where(stored[0]))
             else:
                 if direct or loops: run.violated(key, 'atmosphere blocks are assigned although the target has none', where=fi.where())
                 else: run.ok(key, 'nothing to assign', where=fi.where())
